@@ -2,13 +2,15 @@
    stale.  Statements only; proofs are in Proofs/C15_*.v.
 
    [reach c t p ls] is the state of the transition system Model/C15_Async.v
-   after the label list [ls] (user actions and scheduler steps in ANY order,
-   any length, any arguments) from a fresh buffer with configuration [c], text
-   [t] and cursor [p].  "All interleavings" = all label lists.
-   [fx c = false] is the code as it is, [fx c = true] the code with
-   fixes/C15-noop-completion-selected.patch.  [ntp cs] is
-   CompletionState.new_text_and_position: the original text with the selected
-   completion applied (the original when none is selected); None = IndexError. *)
+   (the code of /repo as it is now) after the label list [ls] (user actions
+   and scheduler steps in ANY order, any length, any arguments) from a fresh
+   buffer with configuration [c], text [t] and cursor [p].  "All
+   interleavings" = all label lists.  [reach_pinned] is the same for the code
+   as it was at the pinned snapshot, before /repo commit 8bc6590 (finding
+   C15-F1, repaired); it only appears in the `_pinned` theorems.
+   [ntp cs] is CompletionState.new_text_and_position: the original text with
+   the selected completion applied (the original when none is selected);
+   None = IndexError. *)
 From Coq Require Import ZArith List Bool.
 From PTK Require Import Lib.Sx Lib.Py Model.C15_Async Proofs.C15_Base Proofs.C15_User
   Proofs.C15_Sched Proofs.C15_Cfg Proofs.C15_Theorems.
@@ -16,39 +18,38 @@ Import ListNotations.
 Open Scope Z_scope.
 
 (* Whenever a completion menu exists, buffer text and cursor are the original
-   with the selected completion applied - for the repaired code ... *)
+   with the selected completion applied. *)
 Theorem C15_menu_consistent : forall c t p ls,
-  0 <= p <= len t -> fx c = true ->
-  forall cs, cst (reach c t p ls) = Some cs ->
-    ntp cs = Some (text (reach c t p ls), cur (reach c t p ls)).
-Proof. exact menu_consistent_fixed. Qed.
-Print Assumptions C15_menu_consistent.
-
-(* ... which the code as it is does not satisfy (finding C15-F1): Tab, a
-   no-op completion arrives, Tab/Down selects it, the completer finishes and
-   deletes it: a menu with complete_index = 0 and no completions. *)
-Theorem C15_menu_consistent_refuted :
-  exists c t p ls, 0 <= p <= len t /\ fx c = false /\
-    ~ (forall cs, cst (reach c t p ls) = Some cs ->
-         ntp cs = Some (text (reach c t p ls), cur (reach c t p ls))).
-Proof. exact menu_consistent_refuted. Qed.
-Print Assumptions C15_menu_consistent_refuted.
-
-(* What does hold for the code as it is: the menu is consistent or it is in
-   exactly that broken shape (no completions, an index). *)
-Theorem C15_menu_consistent_ascoded_partial : forall c t p ls,
   0 <= p <= len t ->
   forall cs, cst (reach c t p ls) = Some cs ->
-    ntp cs = Some (text (reach c t p ls), cur (reach c t p ls)) \/
-    (fx c = false /\ cs_comps cs = [] /\ cs_idx cs <> None).
-Proof. exact menu_consistent_ascoded. Qed.
-Print Assumptions C15_menu_consistent_ascoded_partial.
+    ntp cs = Some (text (reach c t p ls), cur (reach c t p ls)).
+Proof. exact menu_consistent. Qed.
+Print Assumptions C15_menu_consistent.
+
+(* At the pinned snapshot this was false (C15-F1): Tab, a no-op completion
+   arrives, Tab/Down selects it, the completer finishes and deletes it: a menu
+   with complete_index = 0 and no completions. *)
+Theorem C15_menu_consistent_pinned_refuted :
+  exists c t p ls, 0 <= p <= len t /\
+    ~ (forall cs, cst (reach_pinned c t p ls) = Some cs ->
+         ntp cs = Some (text (reach_pinned c t p ls), cur (reach_pinned c t p ls))).
+Proof. exact menu_consistent_pinned_refuted. Qed.
+Print Assumptions C15_menu_consistent_pinned_refuted.
+
+(* What did hold there: consistent, or exactly that broken shape. *)
+Theorem C15_menu_consistent_pinned_partial : forall c t p ls,
+  0 <= p <= len t ->
+  forall cs, cst (reach_pinned c t p ls) = Some cs ->
+    ntp cs = Some (text (reach_pinned c t p ls), cur (reach_pinned c t p ls)) \/
+    (cs_comps cs = [] /\ cs_idx cs <> None).
+Proof. exact menu_consistent_pinned_partial. Qed.
+Print Assumptions C15_menu_consistent_pinned_partial.
 
 (* Every completion in the menu was yielded by a generator that was called
    with the menu's original document (after insert_common_part: with the
    document the common part was then typed into); and while nothing is
    selected the buffer still holds exactly that original document: no text or
-   cursor change happened since the menu was installed.  Both variants. *)
+   cursor change happened since the menu was installed. *)
 Theorem C15_completions_fresh : forall c t p ls,
   0 <= p <= len t ->
   forall cs, cst (reach c t p ls) = Some cs ->
@@ -56,21 +57,21 @@ Theorem C15_completions_fresh : forall c t p ls,
                      (cs_shift cs <> [] /\ cs_orig cs = doc_insert (csrc k) (cs_shift cs)))
            (cs_comps cs) /\
     (cs_idx cs = None -> cs_orig cs = cur_doc (reach c t p ls)).
-Proof. exact completions_fresh. Qed.
+Proof. exact (fun c => completions_fresh (current c)). Qed.
 Print Assumptions C15_completions_fresh.
 
 (* A published verdict was computed from a document with the current text. *)
 Theorem C15_verdict_fresh : forall c t p ls,
   0 <= p <= len t -> vst (reach c t p ls) <> 0 ->
   exists d, vsrc (reach c t p ls) = Some d /\ dtext d = text (reach c t p ls).
-Proof. exact verdict_fresh. Qed.
+Proof. exact (fun c => verdict_fresh (current c)). Qed.
 Print Assumptions C15_verdict_fresh.
 
 (* A displayed suggestion was computed from a document with the current text. *)
 Theorem C15_suggestion_fresh : forall c t p ls,
   0 <= p <= len t ->
   forall sg d, sug (reach c t p ls) = Some (sg, d) -> dtext d = text (reach c t p ls).
-Proof. exact suggestion_fresh. Qed.
+Proof. exact (fun c => suggestion_fresh (current c)). Qed.
 Print Assumptions C15_suggestion_fresh.
 
 (* From "nothing selected", k+1 x complete_next selects completion k (k < n),
@@ -81,7 +82,7 @@ Theorem C15_cycle_next : forall c t p ls cs (k : nat),
   let s' := run (reach c t p ls) (repeat (CompleteNext 1 false) (S k)) in
   cst s' = Some (cs_with_idx cs (Some (Z.of_nat k))) /\
   ntp (cs_with_idx cs (Some (Z.of_nat k))) = Some (text s', cur s').
-Proof. exact cycle_next. Qed.
+Proof. exact (fun c => cycle_next (current c)). Qed.
 Print Assumptions C15_cycle_next.
 
 (* ... and n+1 x complete_next wraps to "nothing selected", the original text
@@ -91,7 +92,7 @@ Theorem C15_cycle_next_wraps : forall c t p ls cs,
   cst (reach c t p ls) = Some cs -> cs_idx cs = None -> 1 <= len (cs_comps cs) ->
   let s' := run (reach c t p ls) (repeat (CompleteNext 1 false) (S (Z.to_nat (len (cs_comps cs))))) in
   cst s' = Some cs /\ text s' = dtext (cs_orig cs) /\ cur s' = dcur (cs_orig cs).
-Proof. exact cycle_next_wraps. Qed.
+Proof. exact (fun c => cycle_next_wraps (current c)). Qed.
 Print Assumptions C15_cycle_next_wraps.
 
 (* complete_previous visits them in the reverse order n-1, n-2, ... *)
@@ -101,10 +102,11 @@ Theorem C15_cycle_prev : forall c t p ls cs (k : nat),
   let s' := run (reach c t p ls) (repeat (CompletePrev 1 false) (S k)) in
   cst s' = Some (cs_with_idx cs (Some (len (cs_comps cs) - 1 - Z.of_nat k))) /\
   ntp (cs_with_idx cs (Some (len (cs_comps cs) - 1 - Z.of_nat k))) = Some (text s', cur s').
-Proof. exact cycle_prev. Qed.
+Proof. exact (fun c => cycle_prev (current c)). Qed.
 Print Assumptions C15_cycle_prev.
 
-(* ... and is the inverse of complete_next from any valid selection. *)
+(* ... and is the inverse of complete_next from any selection (every
+   selection is valid: C15_menu_consistent). *)
 Theorem C15_cycle_inverse : forall c t p ls cs,
   0 <= p <= len t ->
   cst (reach c t p ls) = Some cs ->
@@ -114,37 +116,37 @@ Theorem C15_cycle_inverse : forall c t p ls cs,
   let s2 := run (reach c t p ls) [CompletePrev 1 false; CompleteNext 1 false] in
   (cst s1 = Some cs /\ ntp cs = Some (text s1, cur s1)) /\
   (cst s2 = Some cs /\ ntp cs = Some (text s2, cur s2)).
-Proof. exact next_prev_inverse. Qed.
+Proof. exact (fun c => next_prev_inverse (current c)). Qed.
 Print Assumptions C15_cycle_inverse.
 
-(* Cancelling restores the original text and cursor and closes the menu - for
-   the repaired code ... *)
+(* Cancelling restores the original text and cursor and closes the menu,
+   without raising. *)
 Theorem C15_cancel : forall c t p ls,
-  0 <= p <= len t -> fx c = true ->
+  0 <= p <= len t ->
   forall cs, cst (reach c t p ls) = Some cs ->
     snd (step (reach c t p ls) Cancel) = 0 /\ cst (apply (reach c t p ls) Cancel) = None /\
     text (apply (reach c t p ls) Cancel) = dtext (cs_orig cs) /\
     cur (apply (reach c t p ls) Cancel) = dcur (cs_orig cs).
-Proof. exact cancel_fixed. Qed.
+Proof. exact cancel_restores. Qed.
 Print Assumptions C15_cancel.
 
-(* ... whereas in the code as it is cancel_completion can raise IndexError
-   (status 2) with the menu left open (same witness, C15-F1) ... *)
-Theorem C15_cancel_refuted :
-  exists c t p ls, 0 <= p <= len t /\ fx c = false /\
-    (exists cs, cst (reach c t p ls) = Some cs) /\ snd (step (reach c t p ls) Cancel) = 2.
-Proof. exact cancel_refuted. Qed.
-Print Assumptions C15_cancel_refuted.
+(* At the pinned snapshot cancel_completion could raise IndexError (status 2)
+   with the menu left open (same witness, C15-F1) ... *)
+Theorem C15_cancel_pinned_refuted :
+  exists c t p ls, 0 <= p <= len t /\
+    (exists cs, cst (reach_pinned c t p ls) = Some cs) /\ snd (step (reach_pinned c t p ls) Cancel) = 2.
+Proof. exact cancel_pinned_refuted. Qed.
+Print Assumptions C15_cancel_pinned_refuted.
 
-(* ... and only there: from every other menu cancel restores the original. *)
-Theorem C15_cancel_ascoded_partial : forall c t p ls,
+(* ... and only there. *)
+Theorem C15_cancel_pinned_partial : forall c t p ls,
   0 <= p <= len t ->
-  forall cs, cst (reach c t p ls) = Some cs -> ~ (cs_comps cs = [] /\ cs_idx cs <> None) ->
-    snd (step (reach c t p ls) Cancel) = 0 /\ cst (apply (reach c t p ls) Cancel) = None /\
-    text (apply (reach c t p ls) Cancel) = dtext (cs_orig cs) /\
-    cur (apply (reach c t p ls) Cancel) = dcur (cs_orig cs).
-Proof. exact cancel_ascoded. Qed.
-Print Assumptions C15_cancel_ascoded_partial.
+  forall cs, cst (reach_pinned c t p ls) = Some cs -> ~ (cs_comps cs = [] /\ cs_idx cs <> None) ->
+    snd (step (reach_pinned c t p ls) Cancel) = 0 /\ cst (apply (reach_pinned c t p ls) Cancel) = None /\
+    text (apply (reach_pinned c t p ls) Cancel) = dtext (cs_orig cs) /\
+    cur (apply (reach_pinned c t p ls) Cancel) = dcur (cs_orig cs).
+Proof. exact cancel_pinned_partial. Qed.
+Print Assumptions C15_cancel_pinned_partial.
 
 (* At most one completer, validator and suggester is past its
    `_only_one_at_a_time` guard, and none when the guard's flag is clear. *)
@@ -156,12 +158,13 @@ Theorem C15_single_flight : forall c t p ls,
   (crun (reach c t p ls) = false -> ccos (reach c t p ls) = []) /\
   (vrun (reach c t p ls) = false -> vcos (reach c t p ls) = []) /\
   (srun (reach c t p ls) = false -> scos (reach c t p ls) = []).
-Proof. exact single_flight. Qed.
+Proof. exact (fun c => single_flight (current c)). Qed.
 Print Assumptions C15_single_flight.
 
 (* Non-vacuity: a menu with two completions, the second selected and applied
    while the completer is still loading (with validator and suggester having
-   run), is reachable. *)
+   run), is reachable; and so is the menu that used to break: the single no-op
+   completion selected, completer finished - still there, still selected. *)
 Example C15_reachable :
   let s := reach (mkcfg true true true 10000 true) [97] 1
              [Insert [98]; Tick; VReturn 0 true; SReturn 0 (Some [120]);
@@ -170,3 +173,9 @@ Example C15_reachable :
   text s = [97; 98; 100] /\ length (ccos s) = 1%nat /\
   exists cs, cst s = Some cs /\ cs_idx cs = Some 1 /\ len (cs_comps cs) = 2.
 Proof. vm_compute. split; [reflexivity|]. split; [reflexivity|]. eexists. repeat split. Qed.
+
+Example C15_former_witness_now_fine :
+  let s := reach w_cfg [97; 98] 2 w_labels in
+  exists cs, cst s = Some cs /\ cs_idx cs = Some 0 /\ len (cs_comps cs) = 1 /\
+             ntp cs = Some (text s, cur s).
+Proof. vm_compute. eexists. repeat split. Qed.
